@@ -34,6 +34,7 @@ class Contract:
         self.split = kw.pop('split', None)          # [(obligation-name substring, {expr: (lo, hi)})]: solver-side case split
         self.cases = kw.pop('cases', None)          # name -> list of concrete values: top-level case split
         self.case_chunk = kw.pop('case_chunk', None)  # which case key splits work across processes
+        self.regex_facts = kw.pop('regex_facts', None)   # pattern source text -> groups present in every match (trusted)
         self.only_for = kw.pop('only_for', None)      # property -> obligation-name substrings: for that property only these obligations are run
         self.assume_pre = kw.pop('assume_pre', None)  # callee short name -> reason: its requires are assumed at calls from here
         self.name = kw.pop('name', None)            # label used in obligation names (defaults to function short name)
